@@ -55,7 +55,14 @@ def gen_case(r):
         how = r.choice(["p", "p", "quote", "list", "table", "em", "link", "heading", "strong", "nested", "em-link", "em-link", "em-code", "strong-em-link"])
         # what follows a reference directly: nothing, punctuation, or the opening of another construct (for defined notes only:
         # an undefined reference followed by a parenthesis is an ordinary link by CommonMark's rules)
-        spell = ["[^%s]%s" % (_variant(r, k), r.choice(["", "", "", "(see there)", "(x)", "[y]", ":", "!", "(/u 't')"]) if k in defs else "") for k in refs]
+        def around(k):
+            # what stands directly in front of and behind a reference: nothing, punctuation, or the opening of another construct
+            # ("![" opens an image, "](" a destination).  Behind: for defined notes only (an undefined reference followed by a
+            # parenthesis is an ordinary link by CommonMark's rules); "![^a](x)" is an image, so not both at once
+            pre = r.choice(["", "", "", "!", "!", "?", ".", ")"])
+            post = r.choice(["", "", "", "(see there)", "(x)", "[y]", ":", "!", "(/u 't')"]) if (k in defs and pre != "!") else ""
+            return pre + "[^%s]" % _variant(r, k) + post
+        spell = [around(k) for k in refs]
         body = " and ".join("t%d%s" % (len(blocks), s) for s in spell)
         # references before and inside a link that sits inside emphasis (the parser looks ahead at such links before it
         # has parsed the text in front of them), optionally with a code span that takes precedence over the emphasis
